@@ -21,8 +21,21 @@ pub fn guard<T>(f: impl FnOnce() -> Result<T, PasetoError>) -> R<T> {
     }
 }
 
-pub fn key_from<V: HasKey<K>, K: paseto_core::key::KeyType>(bytes: &[u8]) -> Result<Key<V, K>, PasetoError> {
-    KeyText::<V, K>::from_raw_bytes(bytes).try_into()
+/// when set, every key the byte-level API builds is cloned and the original dropped before use: `Clone` for key types
+/// is hand-written in several backends, and users clone keys because the wrapping operations consume them
+pub static CLONE_KEYS: std::sync::atomic::AtomicBool = std::sync::atomic::AtomicBool::new(false);
+
+pub fn key_from<V: HasKey<K>, K: paseto_core::key::KeyType>(bytes: &[u8]) -> Result<Key<V, K>, PasetoError>
+where
+    Key<V, K>: Clone,
+{
+    let k: Key<V, K> = KeyText::<V, K>::from_raw_bytes(bytes).try_into()?;
+    if CLONE_KEYS.load(std::sync::atomic::Ordering::Relaxed) {
+        let c = k.clone();
+        drop(k);
+        return Ok(c);
+    }
+    Ok(k)
 }
 
 pub fn key_bytes<V: HasKey<K>, K: paseto_core::key::KeyType>(k: &Key<V, K>) -> Vec<u8> {
